@@ -675,6 +675,49 @@ func (t *tr) unknownCall(name string, callee *ssa.Function, cc *ssa.CallCommon, 
 	t.unknownCallees[name] = true
 	m := newModSet()
 	t.havocAllReal(m)
+	if name == "<dynamic>" {
+		// an application callback: may change any real heap cell except objects of the library's model types
+		// (stated assumption: callbacks do not write library objects), and counts as one callback invocation
+		var keep []int
+		keepSort := map[string]bool{}
+		for _, tn := range t.eng.specs.CallbackFrame {
+			if strings.HasPrefix(tn, "heapof(") {
+				keepSort["H_"+strings.TrimSuffix(strings.TrimPrefix(tn, "heapof("), ")")] = true
+				continue
+			}
+			if ty := t.eng.typeByName(tn, nil); ty != nil {
+				if _, isSlice := ty.Underlying().(*types.Slice); isSlice {
+					keep = append(keep, t.eng.sliceTag(ty))
+				} else {
+					keep = append(keep, t.eng.tag(ty))
+				}
+			}
+		}
+		for h := range m.all {
+			if keepSort[h] {
+				continue
+			}
+			old := t.H(heaps, h)
+			nw := t.newHeap(h)
+			heaps[h] = nw
+			if strings.HasPrefix(h, "H_") {
+				for _, tag := range keep {
+					t.assume(R, fmt.Sprintf("(= (select %s %d) (select %s %d))", nw, tag, old, tag))
+				}
+			}
+		}
+		if _, ok := t.eng.specs.Ghosts["callcount"]; ok {
+			t.setHeap(heaps, "G_callcount", fmt.Sprintf("(+ %s 1)", t.H(heaps, "G_callcount")))
+		}
+		for i, rs := range results {
+			if len(rs) == 1 {
+				if ref := refOf(leafSort(resTypes[i]), rs[0]); ref != "" {
+					t.ptrs = append(t.ptrs, ref)
+				}
+			}
+		}
+		return
+	}
 	if callee != nil && t.isHC(callee) {
 		for _, g := range t.eng.specs.GhostOrder {
 			m.addAll("G_" + g)
@@ -790,7 +833,7 @@ func (t *tr) appendBuiltin(ins ssa.Instruction, x ssa.Value, args []ssa.Value, R
 	newLen := fmt.Sprintf("(+ (slen %s) %s)", s, eLen)
 	inPlace := fmt.Sprintf("(<= %s (scap %s))", newLen, s)
 	nr := t.newRef(R)
-	tag := t.eng.tag(x.Type())
+	tag := t.eng.sliceTag(x.Type())
 	t.allocs = append(t.allocs, allocInfo{nr, x})
 	t.escapes[x] = true // conservatively
 	t.assume(R, fmt.Sprintf("(= (slen %s) %s)", r, newLen))
